@@ -2,7 +2,9 @@
 
 1. TLC: Apply (OxiaDb.tla) is total - for every request of the enumerated product of field classes (key
    empty / plain / with slashes / under the internal prefix; partition key +-; sequence deltas none / [0] /
-   [0,1] / [1] / [1,1] / [1,1,1] against prefixes with 0, 1 and 2 existing suffixes; expected version +-;
+   [0,1] / [1] / [1,1] / [1,1,1] against prefixes with 0, 1 and 2 existing suffixes and against records written
+   by plain puts that look like sequence keys (non-digit tail, too few / 21 digits, empty part, part without a
+   leading digit, part above 2^64-1 - the generator's Sscanf("%020d") is transcribed); expected version +-;
    session none / live / dead; 0-2 secondary indexes; deletes; ranges incl. start > end and bounds around
    the internal block) x pre-states it yields one status per operation; requests the leader refuses before
    logging (WellFormed) are steps with outcome REJECTED and no effect.
@@ -80,7 +82,8 @@ def run(ctx):
 
     # known findings: replay the witnesses, report while they still fail
     for f in vf.findings_for("C13"):
-        _witness(ctx, binp, f["id"], os.path.join(vf.VERIF, f["witness"]), seen)
+        for w in f.get("witnesses") or [f["witness"]]:
+            _witness(ctx, binp, f["id"], os.path.join(vf.VERIF, w), seen)
     for f in vf.findings_for("C13"):
         hits = seen.get(f["id"], [])
         if hits:
